@@ -99,6 +99,67 @@ type result struct {
 	traces map[string]bool
 	addrs  map[string]bool
 	cmds   map[string]bool
+	// silent: for every store that a path left WITHOUT a following notification (the root returned, or the next store
+	// came): what the path knows about the store's error result - 2 = non-nil (the store was refused), 1 = nil (the
+	// store was accepted and yet nobody was told), 0 = the path never looked at it
+	silent map[int]bool
+}
+
+const pendPrefix = "pend:"
+
+// pendingOf: the error results of stores the path has not yet notified about
+func pendingOf(st facts) []string {
+	var ks []string
+	for k := range st {
+		if strings.HasPrefix(k, pendPrefix) {
+			ks = append(ks, strings.TrimPrefix(k, pendPrefix))
+		}
+	}
+	sort.Strings(ks)
+	return ks
+}
+
+// settle: the path leaves its pending stores behind (silently: record what it knows about their error results)
+func (a *analyser) settle(st facts, silently bool) facts {
+	ks := pendingOf(st)
+	if len(ks) == 0 {
+		return st
+	}
+	g := make(facts, len(st))
+	for k, v := range st {
+		if !strings.HasPrefix(k, pendPrefix) {
+			g[k] = v
+		}
+	}
+	if silently {
+		for _, k := range ks {
+			a.res.silent[int(st[k])] = true
+		}
+	}
+	return g
+}
+
+// errResult: the index of the error result of a store call (the last result of pointer-to-ErrorType or error type; -1: none)
+func errResult(val ssa.Value) int {
+	if val == nil {
+		return -1
+	}
+	isErr := func(t types.Type) bool {
+		ts := types.TypeString(t, nil)
+		return strings.HasSuffix(ts, "ErrorType") || ts == "error"
+	}
+	if tup, ok := val.Type().(*types.Tuple); ok {
+		for k := tup.Len() - 1; k >= 0; k-- {
+			if isErr(tup.At(k).Type()) {
+				return k
+			}
+		}
+		return -1
+	}
+	if isErr(val.Type()) {
+		return 0
+	}
+	return -1
 }
 
 type analyser struct {
@@ -432,6 +493,15 @@ func (a *analyser) run(fr *frame, b *ssa.BasicBlock, i int, prev *ssa.BasicBlock
 		case *ssa.Phi:
 			delete(fr.vals, ins)
 			fr.vals[ins] = a.eval(fr, ins, prev, 0)
+			// a boolean joined from several blocks (`ok := x != nil && err == nil`): the path remembers which edge
+			// it came by, so that a later branch on it is decided like a branch on the condition itself
+			if bt, ok := ins.Type().Underlying().(*types.Basic); ok && bt.Kind() == types.Bool && prev != nil {
+				for k, pb := range b.Preds {
+					if pb == prev && k < len(ins.Edges) {
+						st = st.with(fmt.Sprintf("phi:%s/%s", fr.sig, ins.Name()), int8(k+1))
+					}
+				}
+			}
 		case *ssa.Store:
 			if al, ok := ins.Addr.(*ssa.Alloc); ok {
 				if fr.mem == nil {
@@ -458,7 +528,23 @@ func (a *analyser) anyReach(fs []*ssa.Function) bool {
 func (a *analyser) branch(fr *frame, b *ssa.BasicBlock, ins *ssa.If, prev *ssa.BasicBlock, st facts, tr string, ret func([]*sym, facts, string)) {
 	goT := func(st facts) { a.run(fr, b.Succs[0], 0, b, st, tr, ret) }
 	goF := func(st facts) { a.run(fr, b.Succs[1], 0, b, st, tr, ret) }
-	if c, ok := ins.Cond.(*ssa.Const); ok {
+	// look through negations and through booleans joined by a phi (the edge this path came by)
+	cond := ins.Cond
+	for n := 0; n < 8; n++ {
+		if u, ok := cond.(*ssa.UnOp); ok && u.Op == token.NOT {
+			goT, goF = goF, goT
+			cond = u.X
+			continue
+		}
+		if ph, ok := cond.(*ssa.Phi); ok {
+			if k := st[fmt.Sprintf("phi:%s/%s", fr.sig, ph.Name())]; k > 0 && int(k) <= len(ph.Edges) {
+				cond = ph.Edges[k-1]
+				continue
+			}
+		}
+		break
+	}
+	if c, ok := cond.(*ssa.Const); ok {
 		if c.Value != nil && c.Value.String() == "true" {
 			goT(st)
 		} else {
@@ -466,7 +552,7 @@ func (a *analyser) branch(fr *frame, b *ssa.BasicBlock, ins *ssa.If, prev *ssa.B
 		}
 		return
 	}
-	if bo, ok := ins.Cond.(*ssa.BinOp); ok && (bo.Op == token.EQL || bo.Op == token.NEQ) {
+	if bo, ok := cond.(*ssa.BinOp); ok && (bo.Op == token.EQL || bo.Op == token.NEQ) {
 		var other ssa.Value
 		if c, ok := bo.Y.(*ssa.Const); ok && c.IsNil() {
 			other = bo.X
@@ -533,11 +619,34 @@ func (a *analyser) call(fr *frame, b *ssa.BasicBlock, i int, ins ssa.CallInstruc
 		if len(tr) < 6 {
 			tr += "S"
 		}
-		st2 := st
-		if recv != nil {
-			st2 = st.with("stored:"+recv.id, 1)
+		if os.Getenv("NP_DEBUG") != "" && recv != nil {
+			fmt.Fprintf(os.Stderr, "S in %s sig=%s recv.id=%s recv.desc=%s\n", fr.fn.Name(), fr.sig, recv.id, recv.desc)
 		}
-		cont(nil, st2, tr)
+		st2 := a.settle(st, true) // a store directly after a store: the earlier one stays unannounced
+		if recv != nil {
+			st2 = st2.with("stored:"+recv.id, 1)
+		}
+		// the error result of the store gets a symbol of its own; it is PENDING until a notification follows
+		// … unless the object stored into is not reached from the receiver (the cache of a REMOTE feature's data, filled
+		// by replies and notifications of the peer: nobody subscribes to that)
+		var rs []*sym
+		if recv != nil && !strings.HasPrefix(recv.id, "p0") && !strings.HasPrefix(recv.id, "&p0") {
+			cont(nil, st2, tr)
+			return
+		}
+		if k := errResult(val); k >= 0 {
+			n := 1
+			if tup, ok := val.Type().(*types.Tuple); ok {
+				n = tup.Len()
+			}
+			rs = make([]*sym, n)
+			id := fmt.Sprintf("%s/%s#err", fr.sig, val.Name())
+			rs[k] = &sym{id: id, desc: "storeErr"}
+			st2 = st2.with(pendPrefix+id, 1)
+		} else {
+			st2 = st2.with(pendPrefix+fmt.Sprintf("%s/%s#noerr", fr.sig, ins.String()), 1)
+		}
+		cont(rs, st2, tr)
 		return
 	case "N":
 		if len(tr) < 6 {
@@ -575,6 +684,7 @@ func (a *analyser) call(fr *frame, b *ssa.BasicBlock, i int, ins ssa.CallInstruc
 			base = base[:j]
 		}
 		a.res.cmds[fmt.Sprintf("%s:%v:%s", cmd.method, stored, own)] = true
+		st = a.settle(st, false)
 		if c.IsInvoke() {
 			cont(nil, st, tr)
 			return
@@ -674,7 +784,7 @@ func (a *analyser) call(fr *frame, b *ssa.BasicBlock, i int, ins ssa.CallInstruc
 }
 
 func (a *analyser) analyse(f *ssa.Function, paramNames bool) *result {
-	a.res = &result{traces: map[string]bool{}, addrs: map[string]bool{}, cmds: map[string]bool{}}
+	a.res = &result{traces: map[string]bool{}, addrs: map[string]bool{}, cmds: map[string]bool{}, silent: map[int]bool{}}
 	a.memo = map[string]bool{}
 	a.steps = 0
 	fr := &frame{fn: f, sig: "", vals: map[ssa.Value]*sym{}, tuples: map[ssa.Value][]*sym{}, stack: map[*ssa.Function]bool{f: true}}
@@ -699,7 +809,13 @@ func (a *analyser) analyse(f *ssa.Function, paramNames bool) *result {
 		fr.vals[fv] = &sym{id: d, desc: d}
 	}
 	res := a.res
-	a.run(fr, f.Blocks[0], 0, nil, facts{}, "", func(_ []*sym, _ facts, tr string) { res.traces[tr] = true })
+	a.run(fr, f.Blocks[0], 0, nil, facts{}, "", func(_ []*sym, st facts, tr string) {
+		res.traces[tr] = true
+		saved := a.res
+		a.res = res
+		a.settle(st, true)
+		a.res = saved
+	})
 	return res
 }
 
@@ -1176,14 +1292,20 @@ func main() {
 
 	var sb strings.Builder
 	sb.WriteString("/- GENERATED by go/notifypaths from the tree under test - do not edit.\n   Event traces (S = a call of FunctionDataInterface.UpdateDataAny, N = a call of NotifySubscribers) along the feasible\n   paths of every exported method of spine.FeatureLocal that can reach NotifySubscribers, and of the function literals\n   below them; abstract address argument of every N (p0 = the receiver; unexported fields by type); whether the cmd\n   argument is NotifyOrWriteCmdType of an object the same path stored into. -/\nnamespace Spine.Generated.NotifyPaths\n\n")
-	sb.WriteString("structure Row where\n  root : String\n  traces : List String\n  /-- the same traces, S = 0, N = 1 -/\n  codes : List (List Nat)\n  addrs : List String\n  cmds : List String\nderiving DecidableEq, Repr\n\n")
+	sb.WriteString("structure Row where\n  root : String\n  traces : List String\n  /-- the same traces, S = 0, N = 1 -/\n  codes : List (List Nat)\n  addrs : List String\n  cmds : List String\n  /-- what a path knows about the error result of a store it leaves WITHOUT a following notification:\n      2 = non-nil (store refused), 1 = nil (store accepted, nobody told), 0 = never tested -/\n  silent : List Nat\nderiving DecidableEq, Repr\n\n")
 	sb.WriteString("def rows : List Row := [\n")
 	for i, r := range rows {
 		sep := ","
 		if i == len(rows)-1 {
 			sep = ""
 		}
-		fmt.Fprintf(&sb, "  ⟨%q, %s, %s, %s, %s⟩%s\n", r.name, qs(keys(r.res.traces)), codes(keys(r.res.traces)), qs(keys(r.res.addrs)), qs(keys(r.res.cmds)), sep)
+		var sil []string
+		for _, k := range []int{0, 1, 2} {
+			if r.res.silent[k] {
+				sil = append(sil, fmt.Sprint(k))
+			}
+		}
+		fmt.Fprintf(&sb, "  ⟨%q, %s, %s, %s, %s, [%s]⟩%s\n", r.name, qs(keys(r.res.traces)), codes(keys(r.res.traces)), qs(keys(r.res.addrs)), qs(keys(r.res.cmds)), strings.Join(sil, ", "), sep)
 	}
 	sb.WriteString("]\n\n")
 	fmt.Fprintf(&sb, "/-- call sites of NotifySubscribers in the whole module / those met on the paths above -/\ndef sites : Nat := %d\ndef sitesOnDataPaths : Nat := %d\n\n", len(sites), len(dataVisited))
